@@ -18,7 +18,7 @@ def check(tier, seed):
     except ImportError:
         pass
     d.add_units(fold_canaries(run_units(specs)))
-    d.add_lean(NAT_LEAN + NAT_LEAN_NH)
+    d.add_lean(NAT_LEAN + NAT_LEAN_NH + ["PV.Direct.greens_solves", "PV.Direct.constrained_injective"])
     d.assumptions += [NAT_NOTE,
                       INSTANCE_NOTE + "the embedding of the explicit computation into the ambient space (last block compressed by Q = 1 - R_E L_E^dagger) is a homomorphism "
                       "that commutes with products, adjoints and the block structure; it commutes with the Sylvester solver iff the implicit solver meets its contract",
@@ -28,7 +28,9 @@ def check(tier, seed):
                       "(on return without a RuntimeWarning the residual of the returned vector is <= atol); that the Chebyshev expansion converges, and how the residual tolerance "
                       "propagates to H_tilde, is not decided (bounded battery of C16 / C04 only)",
                       "dtype mixtures (numpy promotion rules)",
-                      "solve_sylvester_KPM, direct_greens_function / _constrain_matrix and _group_close_energies internals (bounded battery of C16); solve_sylvester_direct is under a "
+                      "_group_close_energies and _kernel_pivot_rows (pivoted QR) internals (bounded battery of C16); direct_greens_function / _constrain_matrix are under contract "
+                      "(contracts/linalg_direct.py + PV.Direct.greens_solves: the returned vector solves (E - h) x = P v in the range of P, rows replaced taken from the LEFT kernel basis); "
+                      "solve_sylvester_direct is under a "
                       "structural contract: every level is solved with the Green's function built for a member of its own degeneracy group and that group's kernel columns, row k of "
                       "Y P by the k-th function of the row block, result projected again; left-implicit branch column-wise with a minus sign"]
     d.explanation = ("The projected Hamiltonian of implicit mode is under contract (blocks L_i^dagger A R_j, L_i^dagger A Q, Q A R_j, Q A Q with Q the complement projector of "
